@@ -11,4 +11,14 @@ PROPS = {
         "not_modelled": "Enum, Bytes, Set, Array, Id, Function variants; String/date bounds (same generic code, exercised through i64 and f64 only)",
         "assumptions": ["bounds compare as Z under the order embedding (NaN excluded: the code asserts on it)"],
     },
+    "C15": {
+        "model_targets": ["QV/Corr/C15.vo"],
+        "oracle": "lookup specification re-implemented in the harness and compared with Hierarchy::get_key_value; queries with an unqualified column present in several joined relations must be refused unless coalesced by USING/NATURAL",
+        "trusted": [
+            "correspondence: harness/src/c15.rs (numbering of path components) and QV/Corr/C15.v",
+            "modelled, not verified: src/hierarchy.rs (get_key_value, filter, prepend, and_then); sql/relation.rs and query_names.rs are exercised by the query stream only",
+        ],
+        "not_modelled": "sqlparser identifier parsing; scoping of CTE names in query_names.rs (query stream only)",
+        "assumptions": ["BTreeMap keys are distinct (NoDup) — the iteration order is proved irrelevant"],
+    },
 }
